@@ -23,7 +23,7 @@ func c43Race(c *mon.Ctx, idx int) bool {
 	const interval = 60 * time.Second
 	o := linkOpts{start: time.Unix(1_660_000_000+int64(r.IntN(1_000_000)), 0), salt: int64(r.Uint64())}
 	if keepalive {
-		o.pingInterval, o.pingTimeout = interval, 300*time.Millisecond
+		o.pingInterval, o.pingTimeout = interval, 60*time.Millisecond // only the final, unanswered keep-alive ping runs under it
 	}
 	s := &c43api{c: c, r: r, idx: idx}
 	s.l = newLink(c, r, o)
